@@ -13,7 +13,7 @@ def opts(rng):
                 indent=rng.choice([None, None, 1, 2, 3, 4, 7, 9, 10]), width=rng.choice([None, None, 1, 5, 10, 20, 80, 1000]), allow_unicode=rng.choice([None, True]),
                 line_break=rng.choice([None, None, '\n', '\r\n', '\r']), encoding=rng.choice([None, None, None, 'utf-8', 'utf-16-le', 'utf-16-be']),
                 explicit_start=rng.choice([None, True]), explicit_end=rng.choice([None, True]), version=rng.choice([None, None, None, [1, 1]]),
-                tags=rng.choice([None, None, None, {'!e!': 'tag:e.com,2000:'}]), sort_keys=rng.choice([True, False]))
+                tags=rng.choice([None, None, None, None, {'!e!': 'tag:e.com,2000:'}, {'!y!': 'tag:yaml.org,2002:'}, {'!s!': 'tag:yaml.org,2002:set', '!i!': 'tag:yaml.org,2002:int'}, {'!t!': 'tag:yaml.org,2002:timestamp', '!b!': 'tag:yaml.org,2002:binary', '!f!': 'tag:yaml.org,2002:float'}]), sort_keys=rng.choice([True, False]))
 
 def rt_cases(ctx, n):
     rng = ctx.rng; cases = []
